@@ -27,6 +27,7 @@ structure S where
   lastT : Nat := 0
   dsidEver : List Nat := []              -- every dataset id ever handed out
   jobs : List (String × Hub.Multi.Tok) := []  -- C18: stored continuation token per MultiSource job
+  owed : List (String × List String) := []    -- C18: what an interrupted run of a job left undelivered (uris)
   /-- the inputs themselves contradict the specification: an internal id or a dataset id was handed out twice
   (C04/C07/C13: identifiers are never reused, also not after a crash). The specification then has no answer. -/
   poison : Option String := none
@@ -410,6 +411,33 @@ def msrun (a : Acc) (op : Json) : R Acc := do
       let prevAt := if since > 0 then Hub.Multi.timeAtPos s.db dd (since - 1) else none
       (inverseStarts s (Hub.Multi.scanRel s.db cfg.batch) now prevAt 0 dep.ds ids.eraseDups dep.joins).any fun (st, scope) => d4Class s st now scope
   let kfq := if inD4 then some "inverse-query/several-predicate-dataset-combinations-per-referencing-entity" else none
+  let urisOf (r : List Nat × List Nat × Hub.Multi.Tok) : List String := ((r.1 ++ r.2.1).map (uriFor s)).eraseDups
+  if getBoolD op "faulted" false then
+    -- the sink rejected a batch of this run. What the sink accepted and the token that was persisted are inputs;
+    -- the specification: everything an uninterrupted run would have delivered and this one did not is still owed
+    let emitted ← (getArrD op "emitted").toList.mapM asStr
+    let owedNew := (urisOf rs).filter fun u => !emitted.contains u
+    let prev := (s.owed.lookup job).getD []
+    let ta ← getObj op "tokAfter"
+    let mainI ← getInt ta "main"
+    let depsT : List (String × Nat) := match getOpt ta "deps" with
+      | some (.obj kvs) => kvs.toList.filterMap fun (k, v) => match (fromJson? v : R Int) with
+          | .ok i => if i < 0 then none else some (k, i.toNat)
+          | _ => none
+      | _ => []
+    let jobs' := if mainI < 0 && depsT.isEmpty then s.jobs.filter (·.1 != job)
+      else (job, ({ main := if mainI < 0 then none else some mainI.toNat, deps := depsT } : Hub.Multi.Tok)) :: s.jobs.filter (·.1 != job)
+    let e := Json.mkObj [("res", Json.str "err")]
+    return { a with s := { s with jobs := jobs', owed := (job, (prev ++ owedNew).eraseDups) :: s.owed.filter (·.1 != job) },
+                    outM := a.outM.push e, outS := a.outS.push e, nt := a.nt + 1 }
+  let (jm, js) ← match s.owed.lookup job with
+    | none => pure (jm, js)
+    | some ow => do
+      let now_ ← (getArrD op "emittedNow").toList.mapM asStr
+      let missM := Hub.Store.sortBy (· < ·) (ow.filter fun u => !(urisOf rm).contains u)
+      let missS := Hub.Store.sortBy (· < ·) (ow.filter fun u => !now_.contains u)
+      pure (jm.setObjVal! "owed_missing" (jStrs missM), js.setObjVal! "owed_missing" (jStrs missS))
+  let s := { s with owed := s.owed.filter (·.1 != job) }
   return { a with s := { s with jobs := (job, rm.2.2) :: s.jobs.filter (·.1 != job) },
                   outM := a.outM.push jm, outS := a.outS.push js, nt := a.nt + (if rm.1.isEmpty then 0 else 1),
                   kf := match a.kf with | some k => some k | none => kfq,
